@@ -111,13 +111,25 @@ func (e removeCallInput) remove(params *syntax.BindStms) {
 // The asts must be fully compiled.
 func RemoveInputParam(callable syntax.Callable, param string, asts []*syntax.Ast) Edit {
 	match := matchCallable(callable)
-	return removeInputParam(match, callable, param, asts, nil)
+	return removeInputParam(match, callable, param, asts, nil,
+		make(map[callableParam]struct{}))
 }
 
+// An input parameter of a callable, by name.
+type callableParam struct {
+	callable string
+	param    string
+}
+
+// The removed set holds every parameter which this edit is already going to
+// remove.  The bindings of those parameters are about to disappear, so they
+// do not count as uses of a pipeline's inputs.
 func removeInputParam(match matcher,
 	callable syntax.Callable, param string,
-	asts []*syntax.Ast, edits editSet) editSet {
+	asts []*syntax.Ast, edits editSet,
+	removed map[callableParam]struct{}) editSet {
 	modified := make(map[decId]struct{})
+	removed[callableParam{callable.GetId(), param}] = struct{}{}
 	edits = append(edits, &removeCallableInput{
 		Callable: callable,
 		Param:    param,
@@ -157,13 +169,9 @@ func removeInputParam(match matcher,
 							})
 							modified[id] = struct{}{}
 						}
-						for _, b := range c.Bindings.List {
-							if b.Id != param {
-								removeIdRefs(inputs, b.Exp, syntax.KindSelf)
-							}
-						}
-					} else {
-						for _, b := range c.Bindings.List {
+					}
+					for _, b := range c.Bindings.List {
+						if _, gone := removed[callableParam{c.DecId, b.Id}]; !gone {
 							removeIdRefs(inputs, b.Exp, syntax.KindSelf)
 						}
 					}
@@ -176,11 +184,14 @@ func removeInputParam(match matcher,
 				if len(inputs) > 0 {
 					// Remove inputs which are no longer bound.
 					for input := range inputs {
+						if _, done := removed[callableParam{pipe.Id, input}]; done {
+							continue
+						}
 						fmt.Fprintf(os.Stderr,
 							"Input %s of pipeline %s in %s:%d is no longer used\n",
 							input, pipe.Id, pipe.File().FileName, pipe.Line())
 						edits = removeInputParam(match, pipe, input,
-							asts, edits)
+							asts, edits, removed)
 					}
 				}
 			}
@@ -237,7 +248,7 @@ func removeUnboundPipelineInputs(pipe *syntax.Pipeline,
 				input, pipe.Id, pipe.File().FileName, pipe.Line())
 			edits = removeInputParam(match,
 				pipe, input,
-				asts, edits)
+				asts, edits, make(map[callableParam]struct{}))
 		}
 	}
 	return edits
